@@ -4,6 +4,8 @@ CONSTANTS
   Contents = {"x", "y"}
   MaxDepth = 2
   Probes = 1
+  MaxNodes = 99
+  Slim = FALSE
   Rich = TRUE
 INVARIANTS TypeOK InvWellFormed Total EmitTree
 PROPERTIES FailureAtomic SuccessCodes ReadOnly
